@@ -128,3 +128,83 @@ class N(pg.Object):
   auto_register = False
   x: pg.typing.Int()
   w: pg.typing.Any(default=None)
+
+
+# ------------------------------------------------------------------------------------------
+# Callables of every origin (defined in this importable module, so that resolution "by name" is
+# real). Bodies use only their arguments and defaults: code-serialised functions are rebuilt with
+# the globals of pyglove's json_conversion module and without closure.
+# ------------------------------------------------------------------------------------------
+import functools
+
+
+def mod_def(x, k=1):
+  return x + k
+
+
+mod_lambda = lambda x, k=2: x * k          # a lambda at module scope  # pylint: disable=unnecessary-lambda-assignment
+
+
+class Holder:
+  body_lambda = lambda x, k=3: x - k       # a lambda in a class body  # pylint: disable=unnecessary-lambda-assignment
+
+  def body_def(x, k=4):                     # a plain function in a class body (accessed through the class)  # pylint: disable=no-self-argument
+    return x + k
+
+  @classmethod
+  def cmethod(cls, x):
+    return x + 20
+
+
+def make_nested_def():
+  def inner(x, k=5):
+    return x + k
+  return inner
+
+
+def make_nested_lambda():
+  return lambda x, k=6: x * k
+
+
+PARTIAL = functools.partial(mod_def, k=7)
+
+
+class FD(pg.Object):
+  """Callable fields whose defaults are callables of different origins (serialised even when unchanged)."""
+  fn: pg.typing.Callable(default=mod_lambda)
+  gn: pg.typing.Callable(default=mod_def)
+  hn: pg.typing.Callable(default=Holder.body_lambda)
+  x: pg.typing.Int(default=0)
+
+
+CALLABLES = {
+    'module-def': mod_def,
+    'module-lambda': mod_lambda,
+    'class-body-lambda': Holder.body_lambda,
+    'class-body-def': Holder.body_def,
+    'nested-def': make_nested_def(),
+    'nested-lambda': make_nested_lambda(),
+    'builtin': len,
+    'classmethod': Holder.cmethod,
+    'partial': PARTIAL,
+}
+
+
+# ------------------------------------------------------------------------------------------
+# Classes with object-valued and container-valued DEFAULTS, nested two levels deep: histories
+# "serialise, mutate below the top, serialise again" (memoised derived state between the two).
+# ------------------------------------------------------------------------------------------
+
+class W(pg.Object):
+  inner: pg.typing.Object(P, default=P(x=1, y='a'))
+  tags: pg.typing.List(pg.typing.Any(), default=[])
+  n: pg.typing.Int(default=0)
+
+
+class W2(pg.Object):
+  w: pg.typing.Object(W, default=W())
+  k: pg.typing.Str(default='k')
+  extra: pg.typing.Dict(default={})
+
+
+CLASSES.update(W=W, W2=W2)
